@@ -147,6 +147,31 @@ func c20Corpus(step int) []c20Item {
 			return s
 		})
 	}
+	// the invalid (0,0) encoding next to uniform words: both words of one position cleared (all lanes / one lane), and
+	// all-ones words at one position inside arbitrary words - word-level special cases of an implementation show here
+	for w := 0; w < c20N; w += step {
+		w := w
+		add(fmt.Sprintf("position %d = (0,0) in all lanes, rest all-ones", w), func() *c20State {
+			s := c20AllOnes()
+			s.l[w], s.h[w] = 0, 0
+			return s
+		})
+		add(fmt.Sprintf("position %d = (0,0) in lane %d, rest all-ones", w, w%64), func() *c20State {
+			s := c20AllOnes()
+			s.l[w] &^= 1 << uint(w%64)
+			s.h[w] &^= 1 << uint(w%64)
+			return s
+		})
+		add(fmt.Sprintf("position %d all-ones inside arbitrary words", w), func() *c20State {
+			g := c20LCG(0xB0B0000 + uint64(w))
+			s := &c20State{}
+			for i := 0; i < c20N; i++ {
+				s.l[i], s.h[i] = g.next(), g.next()
+			}
+			s.l[w], s.h[w] = ^uint64(0), ^uint64(0)
+			return s
+		})
+	}
 	for j := uint(0); j < 64; j++ {
 		j := j
 		add(fmt.Sprintf("one lane: lane %d random valid trits, other lanes trit 0", j), func() *c20State {
